@@ -20,6 +20,7 @@ var (
 // When taking the absolute value of a quantity, the unit is unchanged.
 // FHIRPath docs here: https://hl7.org/fhirpath/N1/#abs-integer-decimal-quantity
 func Abs(ctx *expr.Context, input system.Collection, args ...expr.Expression) (system.Collection, error) {
+	input = normalizeNumber(input)
 	// Input validations
 	if input.IsEmpty() {
 		return system.Collection{}, nil
@@ -43,15 +44,12 @@ func Abs(ctx *expr.Context, input system.Collection, args ...expr.Expression) (s
 		res := math.Abs(float64(number))
 		return system.Collection{system.Integer(res)}, nil
 	case system.Decimal:
-		// Input type conversion to float64
-		number, err := input.ToFloat64()
+		// Input type conversion to an exact decimal
+		number, err := toDecimal(input)
 		if err != nil {
 			return nil, err
 		}
-		// Absolution number
-		res := math.Abs(number)
-		result := decimal.NewFromFloat(res)
-		return system.Collection{system.Decimal(result)}, nil
+		return system.Collection{system.Decimal(number.Abs())}, nil
 	case system.Quantity:
 		quantity := strings.Split(input[0].(system.Quantity).String(), " ")
 		// Input type conversion
@@ -69,6 +67,7 @@ func Abs(ctx *expr.Context, input system.Collection, args ...expr.Expression) (s
 // Ceiling returns the first integer greater than or equal to the input.
 // FHIRPath docs here: https://hl7.org/fhirpath/N1/#ceiling-integer
 func Ceiling(ctx *expr.Context, input system.Collection, args ...expr.Expression) (system.Collection, error) {
+	input = normalizeNumber(input)
 	// Input validations
 	if input.IsEmpty() {
 		return system.Collection{}, nil
@@ -77,22 +76,18 @@ func Ceiling(ctx *expr.Context, input system.Collection, args ...expr.Expression
 	if len(args) != 0 {
 		return nil, fmt.Errorf("%w: received %v arguments, expected 0", ErrWrongArity, len(args))
 	}
-	// Input type conversion to float64
-	number, err := input.ToFloat64()
+	// Input type conversion to an exact decimal
+	number, err := toDecimal(input)
 	if err != nil {
 		return nil, err
 	}
-	// Ceiling number
-	result := math.Ceil(number)
-	if result < math.MinInt32 || result > math.MaxInt32 {
-		return system.Collection{}, nil // does not fit an Integer: overflow results in empty
-	}
-	return system.Collection{system.Integer(result)}, nil
+	return integerFromDecimal(number.Ceil()), nil
 }
 
 // Exp returns e raised to the power of the input.
 // FHIRPath docs here: https://hl7.org/fhirpath/N1/#exp-decimal
 func Exp(ctx *expr.Context, input system.Collection, args ...expr.Expression) (system.Collection, error) {
+	input = normalizeNumber(input)
 	// Input validations
 	if input.IsEmpty() {
 		return system.Collection{}, nil
@@ -115,6 +110,7 @@ func Exp(ctx *expr.Context, input system.Collection, args ...expr.Expression) (s
 // Floor returns the first integer less than or equal to the input.
 // FHIRPath docs here: https://hl7.org/fhirpath/n1/#floor-integer
 func Floor(ctx *expr.Context, input system.Collection, args ...expr.Expression) (system.Collection, error) {
+	input = normalizeNumber(input)
 	// Input validations
 	if input.IsEmpty() {
 		return system.Collection{}, nil
@@ -123,22 +119,18 @@ func Floor(ctx *expr.Context, input system.Collection, args ...expr.Expression) 
 	if len(args) != 0 {
 		return nil, fmt.Errorf("%w: received %v arguments, expected 0", ErrWrongArity, len(args))
 	}
-	// Input type conversion to float64
-	number, err := input.ToFloat64()
+	// Input type conversion to an exact decimal
+	number, err := toDecimal(input)
 	if err != nil {
 		return nil, err
 	}
-	// Flooring number
-	result := math.Floor(number)
-	if result < math.MinInt32 || result > math.MaxInt32 {
-		return system.Collection{}, nil // does not fit an Integer: overflow results in empty
-	}
-	return system.Collection{system.Integer(result)}, nil
+	return integerFromDecimal(number.Floor()), nil
 }
 
 // Ln returns the natural logarithm of the input number.
 // FHIRPath docs here: https://hl7.org/fhirpath/N1/#ln-decimal
 func Ln(ctx *expr.Context, input system.Collection, args ...expr.Expression) (system.Collection, error) {
+	input = normalizeNumber(input)
 	// Input validations
 	if input.IsEmpty() {
 		return system.Collection{}, nil
@@ -165,6 +157,7 @@ func Ln(ctx *expr.Context, input system.Collection, args ...expr.Expression) (sy
 // Log returns the logarithm base of the input number.
 // FHIRPath docs here: https://hl7.org/fhirpath/N1/#logbase-decimal-decimal
 func Log(ctx *expr.Context, input system.Collection, args ...expr.Expression) (system.Collection, error) {
+	input = normalizeNumber(input)
 	// Input validations
 	if input.IsEmpty() {
 		return system.Collection{}, nil
@@ -200,6 +193,7 @@ func Log(ctx *expr.Context, input system.Collection, args ...expr.Expression) (s
 // Power returns a number to the exponent power.
 // FHIRPath docs here: https://hl7.org/fhirpath/N1/#powerexponent-integer-decimal-integer-decimal
 func Power(ctx *expr.Context, input system.Collection, args ...expr.Expression) (system.Collection, error) {
+	input = normalizeNumber(input)
 	// Validating input
 	if input.IsEmpty() {
 		return system.Collection{}, nil
@@ -289,7 +283,7 @@ func Round(ctx *expr.Context, input system.Collection, args ...expr.Expression) 
 	// Rounding number
 	switch value.(type) {
 	case system.Decimal:
-		res, _ := input[0].(system.Decimal)
+		res, _ := value.(system.Decimal)
 		result := res.Round(precision)
 		return system.Collection{result}, nil
 	case system.Integer:
@@ -307,6 +301,7 @@ func Round(ctx *expr.Context, input system.Collection, args ...expr.Expression) 
 // Sqrt returns the square root of the input number as a Decimal.
 // FHIRPath docs here: https://hl7.org/fhirpath/N1/#sqrt-decimal
 func Sqrt(ctx *expr.Context, input system.Collection, args ...expr.Expression) (system.Collection, error) {
+	input = normalizeNumber(input)
 	// Input validations
 	if input.IsEmpty() {
 		return system.Collection{}, nil
@@ -333,6 +328,7 @@ func Sqrt(ctx *expr.Context, input system.Collection, args ...expr.Expression) (
 // Truncate returns the integer portion of the input.
 // FHIRPath docs here: https://hl7.org/fhirpath/N1/#truncate-integer
 func Truncate(ctx *expr.Context, input system.Collection, args ...expr.Expression) (system.Collection, error) {
+	input = normalizeNumber(input)
 	// Input validations
 	if input.IsEmpty() {
 		return system.Collection{}, nil
@@ -341,17 +337,58 @@ func Truncate(ctx *expr.Context, input system.Collection, args ...expr.Expressio
 	if len(args) != 0 {
 		return nil, fmt.Errorf("%w: received %v arguments, expected 0", ErrWrongArity, len(args))
 	}
-	// Input type conversion to float64
-	number, err := input.ToFloat64()
+	// Input type conversion to an exact decimal
+	number, err := toDecimal(input)
 	if err != nil {
 		return nil, err
 	}
-	// Ceiling number
-	result := math.Trunc(number)
-	if result < math.MinInt32 || result > math.MaxInt32 {
-		return system.Collection{}, nil // does not fit an Integer: overflow results in empty
+	return integerFromDecimal(number.Truncate(0)), nil
+}
+
+// normalizeNumber replaces a single FHIR integer, unsignedInt, positiveInt or
+// decimal element by its System value, so that the math functions treat FHIR
+// primitives like the equivalent System types.
+func normalizeNumber(input system.Collection) system.Collection {
+	if !input.IsSingleton() {
+		return input
 	}
-	return system.Collection{system.Integer(result)}, nil
+	if _, ok := input[0].(system.Any); ok {
+		return input
+	}
+	value, err := system.From(input[0])
+	if err != nil {
+		return input
+	}
+	switch value.(type) {
+	case system.Integer, system.Decimal:
+		return system.Collection{value}
+	}
+	return input
+}
+
+// toDecimal returns the exact decimal value of a singleton Integer or Decimal.
+func toDecimal(input system.Collection) (decimal.Decimal, error) {
+	value, err := input.ToSingleton()
+	if err != nil {
+		return decimal.Zero, err
+	}
+	switch v := value.(type) {
+	case system.Integer:
+		return decimal.NewFromInt32(int32(v)), nil
+	case system.Decimal:
+		return decimal.Decimal(v), nil
+	}
+	_, err = input.ToFloat64() // reports the conversion error
+	return decimal.Zero, err
+}
+
+// integerFromDecimal converts an integral decimal to an Integer, or to empty if
+// it lies outside of the Integer range (overflow results in empty).
+func integerFromDecimal(d decimal.Decimal) system.Collection {
+	if d.LessThan(decimal.NewFromInt(math.MinInt32)) || d.GreaterThan(decimal.NewFromInt(math.MaxInt32)) {
+		return system.Collection{}
+	}
+	return system.Collection{system.Integer(d.IntPart())}
 }
 
 func logToBase(number, base float64) float64 {
